@@ -139,6 +139,21 @@ CLAIMS = {
                 'that the edited field reads back as set; value preservation of the other fields.',
         'design': 'DESIGN.md section 3, C12',
     },
+    'C15': {
+        'technique': 'static analysis: graph-cut must-pass-through (close loop / close-on-exec loop between receipt '
+                     'and each return), close-before-free dominance, count-flow and byte-size expression checks, '
+                     'capability-gate typestate in bus and libdbus, borrow/return pairing, timer typestate',
+        'text': 'Decides that every error return after descriptors were received passes the closing loop and resets '
+                'the count, kept descriptors get close-on-exec, descriptor arrays are closed before being freed or '
+                'recycled, the count checked/removed from the loader is the one given to the message and array '
+                'operations use count*sizeof(int), queuing a message with descriptors requires the negotiated '
+                'capability (bus and libdbus) and descriptors accompany only a message\'s first write, the loader\'s '
+                'descriptor buffer is returned with 0 on a failed read, and the pending-descriptor timeout is '
+                'cancelled only when nothing is pending.',
+        'note': NOT_DECIDED_COMMON + 'Not decided: identity/order of the open files received; descriptor totals '
+                'over histories; kernel SCM_RIGHTS behaviour.',
+        'design': 'DESIGN.md section 3, C15',
+    },
 }
 
 NOT_APPLICABLE = {
